@@ -848,7 +848,7 @@ public:
 
         auto* f = data() + pos;
         auto* l = f + etl::min(count, size() - pos);
-        detail::str_replace(f, l, str, next(str, strlen(str)));
+        detail::str_replace(f, l, str, next(str, traits_type::length(str)));
         return *this;
     }
 
@@ -856,7 +856,7 @@ public:
     {
         auto* f = to_mutable_iterator(first);
         auto* l = to_mutable_iterator(last);
-        detail::str_replace(f, l, str, next(str, strlen(str)));
+        detail::str_replace(f, l, str, next(str, traits_type::length(str)));
         return *this;
     }
 
